@@ -21,6 +21,7 @@
 // binary ::= b b1 b0 <binary-data> binary
 //        ::= B b1 b0 <binary-data>
 //        ::= [x20-x2f] <binary-data>
+//        ::= [x34-x37] b0 <binary-data>   (final grammar only: length 0-1023, len = 256 * (code - 0x34) + b0)
 //
 // Binary data is encoded in chunks. The octet x42 ('B') encodes the final chunk
 // and x62 ('b') represents any non-final chunk. Each chunk has a 16-bit // length value.
@@ -51,6 +52,8 @@ const (
 	_binaryShortLenTagMin = byte(0x20) // 1-byte length binary min
 	_binaryShortLenTagMax = byte(0x2f) // 1-byte length binary max
 	_binaryShortTagMaxLen = int(_binaryShortLenTagMax - _binaryShortLenTagMin)
+	_binaryMiddleLenMin   = byte(0x34) // 2-byte length binary min (length 0-1023; what Java writes for 16-1023 octets)
+	_binaryMiddleLenMax   = byte(0x37) // 2-byte length binary max
 )
 
 var (
@@ -162,17 +165,29 @@ func binaryChunkTag(tag byte) bool {
 	return tag == _binaryFinalChunk || tag == _binaryChunk || tag == _binaryChunkDraft
 }
 
+func binaryMiddleTag(tag byte) bool {
+	return tag >= _binaryMiddleLenMin && tag <= _binaryMiddleLenMax
+}
+
 func binaryEndTag(tag byte) bool {
-	return tag == _binaryFinalChunk || binaryShortTag(tag)
+	return tag == _binaryFinalChunk || binaryShortTag(tag) || binaryMiddleTag(tag)
 }
 
 func binaryTag(tag byte) bool {
-	return binaryShortTag(tag) || binaryChunkTag(tag)
+	return binaryShortTag(tag) || binaryMiddleTag(tag) || binaryChunkTag(tag)
 }
 
 func getBinaryLen(reader ByteRuneReader, tag byte) (int, error) {
 	if binaryShortTag(tag) {
 		return int(tag - _binaryShortLenTagMin), nil
+	}
+
+	if binaryMiddleTag(tag) {
+		b0, err := readTag(reader)
+		if err != nil {
+			return 0, err
+		}
+		return int(tag-_binaryMiddleLenMin)<<8 + int(b0), nil
 	}
 
 	bs := make([]byte, 2)
